@@ -2,6 +2,8 @@ import Model.Common.Proto
 import Model.Common.HashProto
 import Model.Common.ECProto
 import Model.C16.Musig2
+import Model.C16.Dleq
+import Model.C16.SilentPayments
 import Generated.Interactive
 open Btc Btc.Py Btc.C16
 
@@ -116,6 +118,120 @@ def musig : List String → Option String
     pure ("ok " ++ rBool (bip340Verify O Hh (← parseInt? xq) (← fromHex? msg) (← parseInt? r) (← parseInt? s)))
   | _ => none
 
+/-- `point_from_pub_key` on a tuple: on the curve and not the point at infinity -/
+def validPoint (c : EC.Curve) (P : EC.Point) : Bool :=
+  P.2 != 0 && (EC.isOnCurve c.toCurveGroup P == some true)
+
+/-- `require_on_curve` (infinity allowed) -/
+def onCurve (c : EC.Curve) (P : EC.Point) : Bool :=
+  EC.isOnCurve c.toCurveGroup P == some true
+
+def hmac256 : Bytes → Bytes → Bytes := hmacSha256
+
+def twoParty : List String → Option String
+  | ["dh.x963", c, d, qx, qy, size, info] => do
+    let c ← EC.curveOfToken c
+    let Q : EC.Point := (← parseInt? qx, ← parseInt? qy)
+    let d ← parseInt? d
+    let size ← parseInt? size
+    let info ← optBytes? info
+    pure (if !(onCurve c Q) then "err value" else
+      rend toHex (diffieHellman (EC.ops c) (fun z => ansiX963Kdf sha256 32 z size info) d Q))
+  | ["kdf.x963", z, size, info] => do
+    pure (rend toHex (ansiX963Kdf sha256 32 (← fromHex? z) (← parseInt? size) (← optBytes? info)))
+  | ["kdf.hkdf", ikm, size, salt, info] => do
+    pure (rend toHex (hkdf hmac256 32 (← fromHex? ikm) (← parseInt? size) (← optBytes? salt) (← optBytes? info)))
+  | ["kdf.hkdf_expand", prk, size, info] => do
+    pure (rend toHex (hkdfExpand hmac256 32 (← fromHex? prk) (← parseInt? size) (← optBytes? info)))
+  | ["dleq.gen", a, bx, by_, aux, gx, gy, msg] => do
+    let B : EC.Point := (← parseInt? bx, ← parseInt? by_)
+    let Gp : EC.Point := (← parseInt? gx, ← parseInt? gy)
+    let a ← parseInt? a
+    let aux ← fromHex? aux
+    let msg ← optBytes? msg
+    pure (if !(scalarOk O a) then "err value"
+      else if !(validPoint EC.secp256k1 B) || !(validPoint EC.secp256k1 Gp) then "err value"
+      else rend toHex (dleqGenerate O Hh a B aux Gp msg))
+  | ["dleq.verify", ax, ay, bx, by_, cx, cy, proof, gx, gy, msg] => do
+    let A : EC.Point := (← parseInt? ax, ← parseInt? ay)
+    let B : EC.Point := (← parseInt? bx, ← parseInt? by_)
+    let C : EC.Point := (← parseInt? cx, ← parseInt? cy)
+    let Gp : EC.Point := (← parseInt? gx, ← parseInt? gy)
+    let proof ← fromHex? proof
+    let msg ← optBytes? msg
+    pure (if !(validPoint EC.secp256k1 A && validPoint EC.secp256k1 B && validPoint EC.secp256k1 C
+                && validPoint EC.secp256k1 Gp) then "err value"
+      else rend (fun _ => "valid") (dleqVerify O Hh A B C proof Gp msg))
+  | _ => none
+
+def point2? (x y : String) : Option EC.Point := do pure (← parseInt? x, ← parseInt? y)
+
+def colon? (s : String) : List String := s.splitOn ":"
+
+def keyFlag? (s : String) : Option (Int × Bool) :=
+  match colon? s with
+  | [a, "0"] => (parseInt? a).map (·, false)
+  | [a, "1"] => (parseInt? a).map (·, true)
+  | _ => none
+
+def pointTok? (s : String) : Option EC.Point :=
+  match colon? s with
+  | [x, y] => point2? x y
+  | _ => none
+
+def recip? (s : String) : Option (EC.Point × EC.Point) :=
+  match colon? s with
+  | [a, b, c, d] => do pure (← point2? a b, ← point2? c d)
+  | _ => none
+
+def label? (s : String) : Option (Bytes × Int) :=
+  match colon? s with
+  | [k, v] => do pure (← fromHex? k, ← parseInt? v)
+  | _ => none
+
+def rFound (l : List (Bytes × Int)) : String :=
+  if l.isEmpty then "-" else ",".intercalate (l.map fun p => toHex p.1 ++ ":" ++ toString p.2)
+
+def vp (P : EC.Point) : Bool := validPoint EC.secp256k1 P
+
+def silent : List String → Option String
+  | ["sp.prv_key_sum", keys] => do
+    pure (rend toString (prvKeySum O (← listOf? keyFlag? keys)))
+  | ["sp.input_hash", ops, ax, ay] => do
+    let ops ← bytesList? ops
+    let A ← point2? ax ay
+    pure (if !(vp A) then "err value" else
+      match lowestOutpoint ops with
+      | .error e => errS e
+      | .ok lowest => rend toString (inputHash O Hh lowest A))
+  | ["sp.label_tweak", b, m] => do
+    pure (rend toString (labelTweak O Hh (← parseInt? b) (← m.toNat?)))
+  | ["sp.output_keys", keys, ops, recips] => do
+    let keys ← listOf? keyFlag? keys
+    let ops ← bytesList? ops
+    let recips ← listOf? recip? recips
+    pure (if recips.any (fun r => !(vp r.1) || !(vp r.2)) then "err value"
+      else rend rList (outputKeys O Hh keys ops recips))
+  | ["sp.scan_outputs", b, sx, sy, tx, ty, outs, labels] => do
+    let b ← parseInt? b
+    let S ← point2? sx sy
+    let T ← point2? tx ty
+    let outs ← bytesList? outs
+    let labels ← listOf? label? labels
+    pure (if !(vp S) || !(vp T) then "err value" else rend rFound (scanOutputs O Hh b S T outs labels))
+  | ["sp.scan_tx", b, sx, sy, ops, pks, outs, labels] => do
+    let b ← parseInt? b
+    let S ← point2? sx sy
+    let ops ← bytesList? ops
+    let pks ← listOf? pointTok? pks
+    let outs ← bytesList? outs
+    let labels ← listOf? label? labels
+    pure (if !(vp S) || pks.any (fun P => !(vp P)) then "err value"
+      else rend rFound (scanTransactionOutputs O Hh b S ops pks outs labels))
+  | ["sp.prv_key_from_tweak", b, t] => do
+    pure (rend toString (prvKeyFromTweak O (← parseInt? b) (← parseInt? t)))
+  | _ => none
+
 end C16Drv
 
 def handle (toks : List String) : String :=
@@ -130,7 +246,11 @@ def handle (toks : List String) : String :=
       | none =>
         match toks with
         | t :: _ =>
-          if t.startsWith "musig." || t.startsWith "bip340." then (C16Drv.musig toks).getD "bad-op" else "bad-op"
+          if t.startsWith "musig." || t.startsWith "bip340." then (C16Drv.musig toks).getD "bad-op"
+          else if t.startsWith "dh." || t.startsWith "kdf." || t.startsWith "dleq." then
+            (C16Drv.twoParty toks).getD "bad-op"
+          else if t.startsWith "sp." then (C16Drv.silent toks).getD "bad-op"
+          else "bad-op"
         | [] => "bad-op"
 
 def main : IO Unit := runLoop handle
